@@ -222,6 +222,28 @@ def sorted_variant(ctx, crate):
         ctx.not_decided("internal_edge_sorted is not of the form sort(internal_edge(..)): its ordering arithmetic is not decided")
 
 
+def slot_indices(ctx, crate):
+    """N: the `index()` of the four cardinal and of the four ordinal directions — the slots of the
+    corner / edge arrays of the external-edge structure — are a bijection onto 0..=3 (two directions
+    sharing a slot overwrite each other's edge)."""
+    from sym import State
+    clause = "filing"
+    for enum in ("compass_point::Cardinal", "compass_point::Ordinal"):
+        fn = enum + "::index"
+        b = ctx.anchor(crate, fn, clause)
+        if b is None: continue
+        names = crate.variant_names(enum)
+        got = {}
+        for vi, nm in enumerate(names):
+            v = ('agg', 'adt:' + enum, vi, ())
+            e = Engine(crate); st = State(); st.heap[('tmp', 'dir')] = v
+            arg = ('ref_t', ('tmp', 'dir')) if b.local_ty(1)["k"] == "ref" else v
+            r = e.run_body(b, [arg], st, fk=((fn, -1),), stack=(fn,)); ctx.functions |= e.visited_fns
+            got[nm] = r.ret[2] if r.returns and r.ret[0] == 'c' else None
+        ok = len(names) == 4 and sorted(x for x in got.values() if x is not None) == [0, 1, 2, 3]
+        ctx.report(clause, fn + ":bijection-onto-0..3", ok, "slots %s" % got, at=b.span, kind="N")
+
+
 def run(ctx):
     crate = ctx.crate("rel")
     deltas = list(range(0, 30)) if ctx.tier == "thorough" else [0, 1, 2, 8, 9, 16, 17, 29]
@@ -231,6 +253,7 @@ def run(ctx):
     domain(ctx, crate)
     walk_shape(ctx, crate, [d for d in deltas if d >= 1])
     sorted_variant(ctx, crate)
+    slot_indices(ctx, crate)
     try:
         from rules import c14_tables
         c14_tables.run(ctx, crate)
